@@ -1300,6 +1300,9 @@ func (e *Engine) loopHeader(st *State, fr *Frame, b, prev *ssa.BasicBlock, ord i
 			fr.vals[ph] = v
 			if ph.Comment != "" {
 				s.names[ph.Comment] = v
+				for _, al := range e.curAliases[ph.Comment] {
+					s.names[al] = v
+				}
 			}
 		}
 	}
